@@ -201,11 +201,26 @@ class CommandPipeline:
             except Exception:
                 xt.print_exception()
                 self._return_terminal()
-                # Release any pipe wrappers held by specs that won't be
-                # routed through _close_proc(): the failing spec, plus any
-                # later specs that never got to run().
-                for s in specs[i:]:
+                # Nothing of this pipeline will be routed through
+                # _close_proc()/_close_prev_procs(): release the pipes of *all*
+                # specs (closing the read ends lets the already started stages
+                # finish with EPIPE instead of blocking for ever) and reap the
+                # stages that were started (newest first, so that nested SIGINT
+                # handlers are given back in the right order).
+                for s in specs:
                     s.close()
+                for p in reversed(self.procs):
+                    try:
+                        if hasattr(p, "join"):
+                            p.join(timeout=3)
+                            if not p.is_alive():
+                                p.wait()
+                        else:
+                            p.wait(timeout=3)
+                    except Exception:
+                        if hasattr(p, "kill"):
+                            p.kill()
+                            p.wait()
                 self.proc = None
                 return
             if proc.pid and pipeline_group is None and not spec.is_proxy:
